@@ -149,7 +149,23 @@ type c10SeqComp struct {
 
 func c10GenSeqComp(r *Rng, ci int, keys []string, named bool, xrSpec map[string]any) c10SeqComp {
 	c := c10SeqComp{rev: fmt.Sprintf("comp-%d", ci), tpls: map[string]c10WTpl{}}
-	if r.Chance(1, 2) {
+	// "shared first": every template STARTS with a reference to the same patch set of 1-9
+	// patches and adds patches of its own after it (the patch lists reach Compose as decoded from
+	// JSON: a decoded slice of 3, 5-7 or 9 elements has spare capacity)
+	sharedFirst := len(keys) >= 2 && r.Chance(1, 3)
+	if sharedFirst {
+		ps := c10PatchSet{Name: Pick(r, c10SetNames)}
+		for j, m := 0, r.Range(1, 9); j < m; j++ {
+			ps.Patches = append(ps.Patches, c10GenSeqFromPatch(r, xrSpec, nil))
+		}
+		c.sets = append(c.sets, ps)
+		if r.Chance(1, 3) {
+			c.sets = append(c.sets, c10PatchSet{Name: Pick(r, c10SetNames), Patches: []c10Patch{c10GenSeqFromPatch(r, xrSpec, nil)}})
+			if c.sets[1].Name == ps.Name {
+				c.sets = c.sets[:1]
+			}
+		}
+	} else if r.Chance(1, 2) {
 		used := map[string]bool{}
 		for i, n := 0, r.Range(1, 3); i < n; i++ {
 			name := Pick(r, c10SetNames)
@@ -206,7 +222,14 @@ func c10GenSeqComp(r *Rng, ci int, keys []string, named bool, xrSpec map[string]
 		for j, m := 0, r.Range(0, 3); j < m; j++ {
 			t.Patches = append(t.Patches, c10GenSeqFromPatch(r, xrSpec, cluster))
 		}
-		if len(c.sets) > 0 && r.Chance(1, 2) {
+		if sharedFirst {
+			own := []c10Patch{{Type: "PatchSet", Set: c10P(c.sets[0].Name)},
+				{Type: "FromCompositeFieldPath", From: &c10Path{Raw: Pick(r, []string{"spec.region", "spec.size", "metadata.name"})}, To: &c10Path{Raw: fmt.Sprintf("spec.forProvider.own%d", ki)}}}
+			if len(t.Patches) > 2 {
+				t.Patches = t.Patches[:2]
+			}
+			t.Patches = append(own, t.Patches...)
+		} else if len(c.sets) > 0 && r.Chance(1, 2) {
 			set := c.sets[r.Intn(len(c.sets))].Name
 			if r.Chance(1, 25) {
 				// a look-alike of a defined name
